@@ -395,6 +395,12 @@ def r3_r4(ctx: Ctx, pf: FuncInfo) -> None:
     mc = [s for s in ast.walk(ci.node) if isinstance(s, ast.Assign) and src(s.targets[0]) == 'max_col']
     ok = bool(mc) and all(k in src(mc[0].value) for k in ('spec.date_column', 'spec.description_column', 'spec.amount_column'))
     ctx.check(ok, 'C18.R4', ci, 'range', 'the suggestion covers columns 0..max(detected columns)', 'the suggestion range does not cover all detected columns')
+    # … and stays that wide: a later adjustment (the optional location column) can only widen it
+    for later in mc[1:]:
+        v_ = later.value
+        widen = isinstance(v_, ast.Call) and call_name(v_) == 'max' and any(isinstance(a_, ast.Name) and a_.id == 'max_col' for a_ in v_.args)
+        ctx.check(widen, 'C18.R4', ci, 'range:only-widened', f'{src(later)[:50]} keeps the columns already covered', f'{src(later)[:60]!r} replaces the range instead of widening it: with the location '
+                  f'column in front of the description or amount column the suggested string stops short of a required field', later)
     # printed column lines read the same attributes
     prints = ' '.join(src(c) for c in ast.walk(ci.node) if isinstance(c, ast.Call) and call_name(c) == 'print')
     ok = all(f'{lbl} column: {{spec.{a}_column}}' in prints for lbl, a in (('Date', 'date'), ('Description', 'description'), ('Amount', 'amount')))
